@@ -149,6 +149,27 @@ func CheckStaking(rs *cs.FullState) error {
 	return nil
 }
 
+// checkRootFloor: the own committee's LastRootHeightUpdated is the floor for the root height of the next certificate
+// (HandleCertificateResults: "invalid certificate root-chain height") and for the build height of every proposal
+// (bft.handleProposal: msg.RcBuildHeight < CommitteeData.LastRootHeightUpdated -> round interrupt). If it lies above the
+// height the root chain has right now, no proposal for the next block can pass: the chain cannot produce a block.
+func checkRootFloor(w *cs.World, c *cs.Chain, rs *cs.FullState) error {
+	if rs.Committees == nil {
+		return nil
+	}
+	now := w.EmptySpec(c).RootHeight
+	if now == 0 {
+		now = c.Height() // its own root
+	}
+	for _, d := range rs.Committees.List {
+		if d.ChainId == w.Opts.ChainID && d.LastRootHeightUpdated > now {
+			return fmt.Errorf("WEDGE: the own committee data demands root height >= %d but the root chain (id %d) is at height %d: no proposal / certificate for height %d can be accepted",
+				d.LastRootHeightUpdated, rs.ConsParams.RootChainId, now, c.Height())
+		}
+	}
+	return nil
+}
+
 // maxMarker returns the largest pending deferred height (0 when none).
 func maxMarker(rs *cs.FullState) (m uint64) {
 	for _, x := range rs.Unstaking {
@@ -189,7 +210,8 @@ func markerPrint(rs *cs.FullState) string {
 }
 
 // lookAhead applies empty blocks on a fork until no deferred marker is pending (at most maxBlocks): every one must apply.
-func lookAhead(c *cs.Chain, maxBlocks int) (applied int, err error) {
+func lookAhead(w *cs.World, maxBlocks int) (applied int, err error) {
+	c := w.C
 	f, e := c.Fork()
 	if e != nil {
 		return 0, fmt.Errorf("fork: %v", e)
@@ -203,12 +225,15 @@ func lookAhead(c *cs.Chain, maxBlocks int) (applied int, err error) {
 		if e = CheckStaking(rs); e != nil {
 			return applied, fmt.Errorf("look-ahead state at height %d: %v", f.Height(), e)
 		}
+		if e = checkRootFloor(w, f, rs); e != nil {
+			return applied, fmt.Errorf("look-ahead state at height %d: %v", f.Height(), e)
+		}
 		mm := maxMarker(rs)
 		if mm == 0 || f.Height() > mm+1 {
 			return applied, nil
 		}
 		h := f.Height()
-		out, e := f.Block(cs.BlockSpec{})
+		out, e := f.Block(w.EmptySpec(f))
 		if e != nil {
 			return applied, fmt.Errorf("look-ahead commit at height %d: %v", h, e)
 		}
@@ -246,6 +271,25 @@ func worldOpts(t cs.Src) cs.WorldOpts {
 	p.Validator.UnstakingBlocks = uint64(t.Int("ub", 1, 4))
 	p.Validator.DelegateUnstakingBlocks = uint64(t.Int("dub", 2, 3))
 	p.Validator.MaxPauseBlocks = uint64(t.Int("mpb", 1, 4))
+	p.Validator.NonSignWindow = uint64([]int{2, 3, 4, 4, 6}[t.Int("nsw", 0, 4)])
+	p.Validator.MaxNonSign = min(uint64(t.Int("mns", 0, 2)), p.Validator.NonSignWindow)
+	if t.Int("nested", 0, 4) == 0 {
+		// a nested chain (chain id 2 under root chain 1) whose root is ahead of it; governance may make it its own root
+		o.ChainID, o.RootSwitch = 2, true
+		switch t.Int("rootoffset", 0, 4) {
+		case 0:
+		case 1:
+			o.RootAhead = 7
+		case 2:
+			o.RootAhead = 1000
+		default:
+			o.RootBehind = uint64(t.Int("rootbehind", 2, 6)) // the root chain is younger than this chain
+		}
+		p.Consensus.RootChainId = uint64(t.Int("genroot", 1, 2)) // starts nested under 1, or as its own root (and may go under 1 later)
+		for i := range o.Vals {
+			o.Vals[i].Committees = [][]uint64{{2}, {2, 1}, {1, 2, 3}}[t.Int("gencmt2", 0, 2)]
+		}
+	}
 	if t.Int("pv2", 0, 3) == 0 {
 		p.Consensus.ProtocolVersion = fsm.NewProtocolVersion(0, 2)
 	}
@@ -258,6 +302,10 @@ func worldOpts(t cs.Src) cs.WorldOpts {
 		o.Weights[k] = v
 	}
 	o.Weights[cs.OpCertResults] = 2 // certificate results of committee 2 (slashes by another committee, Retired)
+	if o.ChainID == 2 {
+		o.Weights[cs.OpCertResults] = 0 // a chain accepts no certificate-results transaction of itself
+		o.Weights[cs.OpParam] = 4
+	}
 	return o
 }
 
@@ -279,6 +327,10 @@ func TestC12History(t *testing.T) {
 			opts.NoDelegateRestake = true
 			opts.OnExclude = rec.Exclude
 		}
+		if (opts.RootAhead > 0 || opts.RootBehind > 0) && ev.Open("KF-C12-root-switch-wedge") {
+			opts.RootAhead, opts.RootBehind = 0, 0 // the old and the new root count the same heights: the switching block's certificate does no harm
+			rec.Exclude("KF-C12-root-switch-wedge")
+		}
 		if ev.Open("KF-C12-dao-percent-zero") {
 			opts.NoDaoZero = true
 			opts.OnExclude = rec.Exclude
@@ -288,8 +340,9 @@ func TestC12History(t *testing.T) {
 			rt.Fatalf("world: %v", err)
 		}
 		defer w.Close()
-		c.Desc("genesis ub=%d dub=%d mpb=%d pv=%s vals=%d", opts.Params.Validator.UnstakingBlocks, opts.Params.Validator.DelegateUnstakingBlocks,
-			opts.Params.Validator.MaxPauseBlocks, opts.Params.Consensus.ProtocolVersion, len(opts.Vals))
+		c.Desc("genesis chain=%d root=%d ahead=%d behind=%d ub=%d dub=%d mpb=%d nsw=%d mns=%d pv=%s vals=%d", max(opts.ChainID, 1), opts.Params.Consensus.RootChainId, opts.RootAhead, opts.RootBehind,
+			opts.Params.Validator.UnstakingBlocks, opts.Params.Validator.DelegateUnstakingBlocks, opts.Params.Validator.MaxPauseBlocks,
+			opts.Params.Validator.NonSignWindow, opts.Params.Validator.MaxNonSign, opts.Params.Consensus.ProtocolVersion, len(opts.Vals))
 		rs, err := w.C.FullState()
 		if err != nil {
 			rt.Fatalf("scan: %v", err)
@@ -317,6 +370,9 @@ func TestC12History(t *testing.T) {
 			if err = CheckStaking(rs); err != nil {
 				rt.Fatalf("after block %d: %v\nhistory:\n%s", h, err, w.HistoryString())
 			}
+			if err = checkRootFloor(w, w.C, rs); err != nil {
+				rt.Fatalf("after block %d: %v\nhistory:\n%s", h, err, w.HistoryString())
+			}
 			// non-trivial: a marker that was pending before and is still pending now while its record or the parameters changed
 			if !nontrivial {
 				nontrivial = markerOutlivedChange(prev, rs)
@@ -326,7 +382,7 @@ func TestC12History(t *testing.T) {
 			if mm := maxMarker(rs); mm != 0 {
 				if p := markerPrint(rs); p != lastPrint {
 					lastPrint = p
-					k, err := lookAhead(w.C, 16)
+					k, err := lookAhead(w, 16)
 					if err != nil {
 						rt.Fatalf("after block %d: %v\nhistory:\n%s", h, err, w.HistoryString())
 					}
@@ -338,7 +394,7 @@ func TestC12History(t *testing.T) {
 			}
 		}
 		// final: run the chain itself dry (every remaining marker fires on the real chain too)
-		if _, err := lookAhead(w.C, 16); err != nil {
+		if _, err := lookAhead(w, 16); err != nil {
 			rt.Fatalf("final look-ahead: %v\nhistory:\n%s", err, w.HistoryString())
 		}
 		c.Desc("%s", w.HistoryString())
@@ -401,6 +457,10 @@ func classify(c *ev.Case, w *cs.World, lookAheads, laBlocks int, nontrivial bool
 		c.ClassIf(n >= 3, "event:"+string(e)+" x3+")
 	}
 	hist := w.HistoryString()
+	c.ClassIf(w.Opts.ChainID == 2, "nested chain (id 2 under root 1)")
+	c.ClassIf(w.Opts.ChainID == 2 && w.Opts.RootAhead > 0 && strings.Contains(hist, "cons/rootChainID=2 ok"), "nested chain with root ahead became its own root")
+	c.ClassIf(w.Opts.ChainID == 2 && w.Opts.RootBehind > 0 && strings.Contains(hist, "cons/rootChainID=2 ok"), "nested chain with root behind became its own root")
+	c.ClassIf(w.Opts.ChainID == 2 && (w.Opts.RootAhead > 0 || w.Opts.RootBehind > 0) && strings.Contains(hist, "cons/rootChainID=1 ok"), "own-root chain went under a root with different heights")
 	c.ClassIf(strings.Contains(hist, " retired "), "cert:own certificate stamped Retired (consensus param retired != 0)")
 	c.ClassIf(strings.Contains(hist, "RETIRED ok"), "committee 2 retired by its certificate results")
 	c.ClassIf(w.Stats["doublesign-entries"] > 0, "cert:double-signers")
